@@ -4,15 +4,31 @@ Writer side (already proved, c_precompute_from_anndata.py `...#split`): every ce
 into row `cluster_to_output_row[cluster of the cell]` of the buffers, and that very table is what
 `_create_empty_stats_file` stores as the JSON dataset `cluster_to_row`; rows are 0 .. n_clusters-1.
 
-Reader side (this file), on the real functions:
+Reader side (this file), contracts on the real functions:
 
-  read_raw_precomputed_stats   cluster_stats[leaf][k] is row cluster_to_row[leaf] of dataset k of the
-                               file, gene_names is its col_names                      (slice, proved)
-  aggregate_stats              n_cells / mean of a population of leaves                (slice, proved)
-  read_precomputed_stats       'level/node' -> aggregate of as_leaves[level][node]     (slice, proved)
-  get_leaf_means               rows = sorted leaf names, columns = the file's genes    (slice, proved)
+  score_utils.read_raw_precomputed_stats   cluster_stats[leaf][k] is row cluster_to_row[leaf] of the
+                                           stored dataset k; gene_names is col_names        (slice, proved)
+  score_utils.aggregate_stats              n_cells = sum, mean = sum of 'sum' rows / max(1, n_cells);
+                                           one leaf: sum / max(1, n)                         (slice, proved)
+  score_utils.read_precomputed_stats       'level/node' -> aggregate of as_leaves[level][node] over the
+                                           file's rows; gene_names passed through            (slice, proved)
+  matching.get_leaf_means#c18              rows = sorted leaf names, columns = the file's gene names,
+                                           row i = centroid of the cluster NAMED ids[i]      (slice, proved)
+  marker_cache_v2.create_raw_marker_gene_lookup   marker table re-keyed by NAME 'level/node' (the same
+                                           naming function), no two parents share a key     (slice, proved)
+  markers._prep_output_file                gene names + pair index over the leaf NAMES       (bounded)
 
-The file is the record `c18_file(path)` (pyvc/ext/c18.py, assumptions A-STATSFILE / A-JSON).
+The open file is the record `c18_file(path)` (pyvc/ext/c18.py: assumptions A-STATSFILE / A-JSON);
+sums over a population of leaves are the folds c18_nsum / c18_gsum (over the dict read) and
+c18_fnsum / c18_fgsum (over the file's rows), linked by lemma AGREE (proved by induction at import).
+Floats are reals (A-REAL).  The native layer runs the same clauses on generated HDF5 files with
+exact equality (the reference sums are accumulated in the order numpy accumulates them).
+
+Note (not a defect of the pinned code, recorded as a pre-condition TREE_REQ[2]): the key
+f'{level}/{node}' is not injective for names containing '/', so read_precomputed_stats would
+overwrite an entry if two (level, node) pairs of one taxonomy spelled the same key;
+create_raw_marker_gene_lookup guards against exactly that (RuntimeError), read_precomputed_stats
+does not.
 """
 from pyvc.contracts import contract
 from pyvc.types import record
@@ -390,4 +406,182 @@ contract(
             "'n_cells' in this and mc_same(this['n_cells'], N0)",
             "all(key_list[i] in this for i in range(_i, len(key_list)))"],
     },
+)
+
+
+# ---------------------------------------------------------------------------------------------
+# get_leaf_means: rows = sorted leaf names, columns = the file's gene names, values = centroids
+# ---------------------------------------------------------------------------------------------
+import contracts.c_cbg_state   # noqa: E402,F401  (registers its constructor model first; ours wraps it)
+_x.install_cbg_constructor({MT + 'get_leaf_means'})
+
+FP = "c18_file(precompute_path)"
+
+
+def _for_path(clauses):
+    return [c.replace(F, FP) for c in clauses]
+
+
+LL = "taxonomy_tree.leaf_level"
+LEAVES = "taxonomy_tree.all_leaves"
+ROWP = f"{FP}['cluster_to_row']"
+GP = f"{FP}['sum'].shape[1]"
+
+# the leaf level as TaxonomyTree presents it (convert_tree_to_leaves, C10): every leaf is a node of
+# the leaf level whose only leaf is itself; leaf names are the keys of a dict
+LEAF_REQ = [
+    f"{LL} in {AL}",
+    f"all(x in {AL}[{LL}] and len({AL}[{LL}][x]) == 1 and {AL}[{LL}][x][0] == x for x in {LEAVES})",
+    f"dupfree({LEAVES})", f"len({LEAVES}) >= 1",
+]
+
+
+def _centroid(row, g, leaf):
+    return (f"{row}[{g}] == {FP}['sum'][{ROWP}[{leaf}], {g}] / max(1, {FP}['n_cells'][{ROWP}[{leaf}]])")
+
+
+def _gen_leaf_means(rng, size):
+    d = _gen_read_stats(rng, size)
+    return dict(taxonomy_tree=d['taxonomy_tree'], precompute_path=d['precomputed_stats_path'],
+                for_marker_selection=d['for_marker_selection'])
+
+
+# (view `#c18`: the plain name carries the bounded C02 contract of c_matching.py)
+contract(
+    MT + 'get_leaf_means#c18',
+    properties=['C18'],
+    mode='slice', unexpected_exceptions='allowed',
+    tracked=['taxonomy_tree', 'precompute_path', 'for_marker_selection', 'precomputed_stats', 'leaf_names',
+             'n_cells', 'data', 'i_leaf', 'leaf', 'leaf_key', 'stats', 'this_mean', 'n_genes', 'result'],
+    params=dict(taxonomy_tree='C18Tree', precompute_path='Name', for_marker_selection='Bool'),
+    locals=dict(precomputed_stats='C18Stats', leaf_names='List[Name]', data='Opt[Arr2[Real]]', stats='C18Node',
+                this_mean='Arr[Real]'),
+    returns='C18CBG',
+    native=dict(gen=_gen_leaf_means),
+    assumptions=['A-TREE (see read_precomputed_stats); all_leaves returns a fresh list (sorting it does not touch the tree)',
+                 'A-CBG: CellByGeneMatrix(...) stores data, gene_identifiers, cell_identifiers, normalization '
+                 '(deep copies of the identifier lists) or raises'],
+    requires=_for_path(VALID_FILE2 + TREE_REQ) + LEAF_REQ,
+    ensures=[
+        "result.normalization == 'log2CPM'",
+        # genes by NAME: the columns are the file's gene names in file order
+        f"result.gene_identifiers == {FP}['col_names']",
+        # clusters by NAME: the rows are labelled with the sorted leaf names ...
+        f"len(result.cell_identifiers) == len({LEAVES})", "sorted_nondecr(result.cell_identifiers)",
+        f"all(x in {LEAVES} for x in result.cell_identifiers)",
+        f"all(x in result.cell_identifiers for x in {LEAVES})",
+        # ... and row i holds the centroid of the cluster named cell_identifiers[i]: the row that the
+        # file's own cluster_to_row table gives that name, divided by its n_cells
+        f"result.data.shape[0] == len({LEAVES}) and result.data.shape[1] == {GP}",
+        f"all(result.data[i, g] == {FP}['sum'][{ROWP}[result.cell_identifiers[i]], g] / "
+        f"max(1, {FP}['n_cells'][{ROWP}[result.cell_identifiers[i]]]) "
+        f"for i in range(len(result.cell_identifiers)) for g in range({GP}))",
+    ],
+    loops={
+        0: [f"implies(_i >= 1, data is not None and some(data).shape[0] == n_cells and some(data).shape[1] == {GP} and "
+            f"all(some(data)[r, g] == {FP}['sum'][{ROWP}[leaf_names[r]], g] / "
+            f"max(1, {FP}['n_cells'][{ROWP}[leaf_names[r]]]) for r in range(_i) for g in range({GP})))",
+            "implies(_i == 0, data is None)"],
+    },
+)
+
+
+# ---------------------------------------------------------------------------------------------
+# create_raw_marker_gene_lookup: the marker table is keyed by NAME - 'None' for the root, 'level/node'
+# for the parent (level, node) - with the same naming function f'{level}/{node}' under which
+# read_precomputed_stats files the statistics of that node; two parents never share a key
+# (RuntimeError otherwise), and every parent keeps its own marker list.
+# ---------------------------------------------------------------------------------------------
+MC = 'cell_type_mapper.type_assignment.marker_cache_v2.'
+record('C18Lookup', _rest='Dict[Name,List[Name]]', log='Opaque')
+
+PARENT = 'Opt[Tuple[Name,Name]]'
+
+
+def _keyof(p):
+    return f"('None' if {p} is None else f'{{some({p})[0]}}/{{some({p})[1]}}')"
+
+
+contract(
+    MC + 'create_raw_marker_gene_lookup',
+    properties=['C18'],
+    mode='slice', unexpected_exceptions='allowed',
+    tracked=['marker_lookup', 'created_groups', 'reformatted_lookup', 'parent_list', 'parent', 'parent_grp'],
+    params=dict(parent_list=f'Opt[List[{PARENT}]]'),
+    locals=dict(marker_lookup=f'Dict[{PARENT},List[Name]]', reformatted_lookup='C18Lookup',
+                created_groups='Set[Name]', parent_grp='Name'),
+    returns='C18Lookup',
+    requires=[],
+    inline_asserts={
+        # the table select_all_markers returned (parent -> marker names), before it is re-keyed
+        'created_groups = set()': ["ghost ML0 = marker_lookup"],
+    },
+    ensures=[
+        f"all({_keyof('p')} in result and mc_same(result[{_keyof('p')}], ML0[p]) for p in ML0)",
+    ],
+    loops={
+        0: [f"all({_keyof('parent_list[i]')} in created_groups and {_keyof('parent_list[i]')} in reformatted_lookup "
+            f"and mc_same(reformatted_lookup[{_keyof('parent_list[i]')}], ML0[parent_list[i]]) for i in range(_i))",
+            "all(parent_list[i] in marker_lookup and mc_same(marker_lookup[parent_list[i]], ML0[parent_list[i]]) "
+            "for i in range(_i, len(parent_list)))",
+            "all(parent_list[i] in ML0 for i in range(len(parent_list)))",
+            "all(any(parent_list[i] == p for i in range(len(parent_list))) for p in ML0)"],
+    },
+)
+
+
+# ---------------------------------------------------------------------------------------------
+# _prep_output_file (BOUNDED, not proved: itertools.combinations + h5py writes are outside the
+# prover): the reference marker file carries the gene names it is given (read_precomputed_stats'
+# gene_names = the statistics file's col_names, passed through unchanged by the caller) and a pair
+# index over the taxonomy's own leaf NAMES: every unordered pair of distinct leaves exactly once,
+# as (leaf_level, a, b) with a < b, `pair_to_idx[leaf_level][a][b]` the inverse of the returned table.
+# ---------------------------------------------------------------------------------------------
+MK = 'cell_type_mapper.diff_exp.markers.'
+
+
+def _marker_file(path):
+    import json
+    import h5py
+    with h5py.File(path, 'r') as f:
+        return dict(gene_names=json.loads(f['gene_names'][()].decode('utf-8')),
+                    pair_to_idx=json.loads(f['pair_to_idx'][()].decode('utf-8')),
+                    n_pairs=int(f['n_pairs'][()]), keys=sorted(f.keys()))
+
+
+def _gen_prep(rng, size):
+    import os
+    tree = gen_valid_tree(rng, size + 1)
+    genes = [f"g{i}" for i in range(rng.randint(0, size + 1))]
+    rng.shuffle(genes)
+    path = os.path.join(_tmp_dir(), f"refmarkers_{os.getpid()}_{rng.randrange(10**9)}.h5")
+    return dict(output_path=path, taxonomy_tree=_mk_tree(tree), gene_names=genes)
+
+
+def _all_pairs(tt):
+    lv = sorted(tt.all_leaves)
+    return [(tt.leaf_level, a, b) for i, a in enumerate(lv) for b in lv[i + 1:]]
+
+
+contract(
+    MK + '_prep_output_file',
+    properties=['C18'], mode='bounded',
+    params=dict(output_path='Name', taxonomy_tree='Opaque', gene_names='List[Name]'),
+    requires=[],
+    ensures=[
+        "marker_file(output_path)['gene_names'] == gene_names",
+        "gene_names == old(gene_names)",
+        # the returned table enumerates every pair of distinct leaves once, in sorted order
+        "[tuple(result[i]) for i in range(len(result))] == all_pairs(taxonomy_tree)",
+        "marker_file(output_path)['n_pairs'] == len(result)",
+        # the stored pair index is its inverse, keyed by leaf level and leaf NAMES
+        "all(marker_file(output_path)['pair_to_idx'][result[i][0]][result[i][1]][result[i][2]] == i "
+        "for i in range(len(result)))",
+        "sum(len(bs) for lvl in marker_file(output_path)['pair_to_idx'].values() for bs in lvl.values()) == len(result)",
+        "set(marker_file(output_path)['pair_to_idx']) <= {taxonomy_tree.leaf_level}",
+    ],
+    native=dict(gen=_gen_prep, bound='seeded random: taxonomies <= 3 levels / <= 7 leaves (single-child nodes '
+                                     'included), 0-5 gene names in arbitrary order',
+                env=dict(marker_file=_marker_file, all_pairs=_all_pairs, tuple=tuple, sum=sum, set=set, len=len)),
+    note="bounded: combinatorial enumeration and HDF5 writes; checked on the file read back",
 )
